@@ -209,9 +209,9 @@ def gen_for(pid: str, index: int, seed: int, tier: str) -> dict:
     r = index % 12
     q = index // 12
     if pid == "C11":
-        if r < 9:
+        if r < len(IK):
             d = designgen.gen_injected(rng, P, IK[r])
-        elif r < 11:
+        elif r == 10 or q % 2:
             d = designgen.gen_accept_case(rng, P, AK[(q * 2 + r) % len(AK)])
         else:
             d = designgen.gen_valid(rng, P)
